@@ -34,7 +34,7 @@ extern "C" {
 
 /* --------------------------------------------------------------------------------------------- shim entry points used */
 extern "C" {
-    void vk_fq_inverse(void*, const void*); void vk_fq_square_root(void*, const void*); void vk_fr_square_root(void*, const void*);
+    void vk_fq_inverse(void*, const void*); void vk_fq_square_root(void*, const void*); void vk_fr_square_root(void*, const void*); void vk_fr_square(void*, const void*);
     void vk_fq2_multiply(void*, const void*, const void*); void vk_fq6_multiply(void*, const void*, const void*); void vk_fq12_multiply(void*, const void*, const void*);
     void vk_fq12_square_cyclotomic(void*, const void*); void vk_fq12_inverse(void*, const void*); void vk_fq2_square_root(void*, const void*);
     int vk_wnaf_recode_256_4(void*, const void*, int*);
@@ -130,6 +130,7 @@ static NOINSTR void build_inputs() {
     embedded_pairing_bls12_381_gt_add(&IN.fq12_b, &IN.gt, &IN.gt);
     embedded_pairing_bls12_381_zp_random(&IN.scalar, det_random);
     embedded_pairing_bls12_381_zp_random(&IN.fr_a, det_random);
+    vk_fr_square(&IN.fr_a, &IN.fr_a);       /* the square-root operation gets a SQUARE: Fr::square_root need not terminate on a non-residue, and which element a random draw yields is not fixed */
     memset(&IN.short_scalar, 0, sizeof(IN.short_scalar));
     ((uint8_t*) &IN.short_scalar)[0] = 0xB5; ((uint8_t*) &IN.short_scalar)[1] = 0x2C;
     det_random(IN.hash, sizeof(IN.hash));
